@@ -54,7 +54,20 @@ def _make_syn():
     return classes
 
 
+def _make_raising():
+    from emsarray.conventions.grid import CFGrid1D
+
+    def check_dataset(cls, dataset):
+        if 'syn_raise' in dataset.attrs:
+            raise KeyError('injected: plug-in check_dataset trips over this dataset')
+        return None
+    cls = type('SynRaise', (CFGrid1D,), {'check_dataset': classmethod(check_dataset), '__module__': __name__})
+    globals()['SynRaise'] = cls
+    return cls
+
+
 SYN = None
+RAISING = None
 
 
 def syn_classes():
@@ -106,6 +119,8 @@ class BindSim:
             if kind == 'marked' or rng.random() < 0.25:
                 for k in rng.sample(range(4), rng.randint(1, 3)):
                     markers[f'syn{k}'] = rng.choice(SPEC_LEVELS)
+            if rng.random() < 0.12:
+                markers['syn_raise'] = 1      # a dataset over which one (broken) plug-in's check_dataset raises
             datasets.append({'world': world, 'mut': mut, 'markers': markers})
         entries = [n for n, _ in read_entry_points()]
         lifetimes_ = []
@@ -114,7 +129,7 @@ class BindSim:
             rng.shuffle(order)
             env = [{'kind': 'real', 'name': n} for n in order]
             for _ in range(rng.choice([0, 0, 1, 2, 3])):
-                fk = rng.choice(['import_error', 'attr_error', 'non_class', 'non_convention', 'dup'])
+                fk = rng.choice(['import_error', 'attr_error', 'non_class', 'non_convention', 'dup', 'raising_check'])
                 item = {'kind': fk, 'name': rng.choice(order)}
                 env.insert(rng.randint(0, len(env)), item)
             if rng.random() < 0.1:
@@ -305,6 +320,13 @@ def _bind_lifetime(ctx, dataset_descs, lt):
             eps.append(_FakeEntryPoint('non_class', 'os.path:join', lambda: len))
         elif e['kind'] == 'non_convention':
             eps.append(_FakeEntryPoint('non_convention', 'builtins:dict', lambda: dict))
+        elif e['kind'] == 'raising_check':
+            global RAISING
+            if RAISING is None:
+                RAISING = _make_raising()
+            eps.append(_FakeEntryPoint('raising_check', 'engines.bindsim:SynRaise', lambda: RAISING))
+            if RAISING not in model_entry:
+                model_entry.append(RAISING)
 
     class _MetadataShim:
         @staticmethod
@@ -408,7 +430,10 @@ def _bind_lifetime(ctx, dataset_descs, lt):
 
     def resolve_cls(spec, ds):
         if spec == 'detected':
-            return emsarray.get_dataset_convention(ds)
+            try:
+                return emsarray.get_dataset_convention(ds)
+            except KeyError:
+                return None      # a raising plug-in: nothing to construct
         if spec.startswith('builtin:'):
             return load_real(genuine[spec.split(':', 1)[1]])
         return syn[spec]
@@ -434,9 +459,21 @@ def _bind_lifetime(ctx, dataset_descs, lt):
                     probe('register_after_detect')
             elif kind == 'detect':
                 allowed, must = expected_detect(ds)
-                got = emsarray.get_dataset_convention(ds)
+                try:
+                    got = emsarray.get_dataset_convention(ds)
+                    got_raised = False
+                except KeyError:
+                    got, got_raised = 'raised', True
                 if allowed is None:
-                    fail('check-dataset-raises', f'{must}')
+                    # a (broken) plug-in raises from check_dataset for this dataset: the statement does not say what
+                    # detection must do then, only that the answer is a function of content: it must be repeatable
+                    probe('detect_with_raising_plugin')
+                    prev = last_detect.get(h)
+                    if prev and prev[0] == (reg_version[0], mutated.get(h, 0)) and prev[1] is not got and prev[1] != got:
+                        fail('detect-repeatable', f'dataset #{h}: with a plug-in whose check_dataset raises, detection gave {prev[1]} first and {got} later, nothing having changed')
+                    last_detect[h] = ((reg_version[0], mutated.get(h, 0)), got)
+                elif got_raised:
+                    fail('op-raised', f'detect raised KeyError although no convention check raises for dataset #{h}')
                 else:
                     if not allowed:
                         probe('detect_nothing_matches')
@@ -459,12 +496,22 @@ def _bind_lifetime(ctx, dataset_descs, lt):
                     # a fresh rebuild of the same content must get the same class (function of content alone)
                     if h < len(dataset_descs) and not mutated.get(h):
                         fresh = _build_dataset(dataset_descs[h])
-                        a = emsarray.get_dataset_convention(fresh)
-                        b = emsarray.get_dataset_convention(ds)
+                        try:
+                            a = emsarray.get_dataset_convention(fresh)
+                        except KeyError:
+                            a = 'raised'
+                        try:
+                            b = emsarray.get_dataset_convention(ds)
+                        except KeyError:
+                            b = 'raised'
                         if a is not b:
                             fail('content-alone', f'dataset #{h}: a fresh dataset with identical content is detected as {a} but this one as {b}')
                 was = bound.get(h)
                 allowed, must = expected_detect(ds) if was is None else (None, None)
+                if was is None and allowed is None:
+                    ctx.emit('skipped', k=k, op=kind)
+                    check_invariants()
+                    continue
                 try:
                     conv = ds.ems
                 except Exception as e:
